@@ -255,7 +255,7 @@ func sources() []source {
 	// the same two queues once more, every history of shape "herd": several consumers parked in the BLOCKING
 	// dequeue before the first element arrives, then fewer elements per wake-up than waiters (appended last: the
 	// case numbers of the sources above stay what they were)
-	if !raceMode {
+	if !raceMode && len(directedOps) == 0 {
 		out = append(out, source{"RequestQueue", func(r *rand.Rand, variant int) func() *cobj {
 			return func() *cobj { co := newQueueObj(0); co.Herd = true; return co }
 		}})
@@ -267,7 +267,7 @@ func sources() []source {
 }
 
 // stamped histories of the herd sources: this many times the usual number of cases (short, cheap histories)
-const herdMult = 10
+const herdMult = 4
 
 func elemOf(x interface{}) []int {
 	switch v := x.(type) {
